@@ -289,11 +289,11 @@ def law_dense(ch):
                     "from_dense:raise-mode-silent",
                     "non-zero entries outside the charge-conserving sectors "
                     "were discarded although invalid_sectors='raise'")
-            if mode == "warn" and ok:
-                warned = any("sector" in str(w.message) for w in wlist)
-                require(warned == has_weight, "from_dense:warn-mode",
-                        lambda: f"warned={warned}, discarded weight="
-                                f"{has_weight}")
+            if mode == "warn" and ok and has_weight:
+                # (any warning counts: its wording is not part of the claim)
+                require(len(wlist) > 0, "from_dense:warn-mode",
+                        "weight outside the conserving sectors was discarded "
+                        "without a warning although invalid_sectors='warn'")
     if ok:
         require(type(y) is cls, "from_dense:class", f"{type(y)}")
         require_valid(y, "from_dense:invalid", "from_dense")
